@@ -1,5 +1,7 @@
 import TabulaModel.Util
 import TabulaModel.Model.GState
+import TabulaModel.Model.XDoc
+import TabulaModel.Lemmas.Expand
 /-
 Line protocol for C08.
 
@@ -120,8 +122,223 @@ def segStr (g : Seg Rat) : String := s!"{dec g.x0},{dec g.y0},{dec g.x1},{dec g.
 
 def joinOr (xs : List String) : String := if xs.isEmpty then "-" else ";".intercalate xs
 
+/-! ### c08.doc: documents (object table, resources, raw operations), histories of Extract
+
+  c08.doc R:<res> <object> … P <rawop> … [| <rawop> …]…
+
+  <res>     nil (no resource context) or the /XObject slot of the page's resources
+  slot      -  missing   ?  wrong type   @n  reference   {hexname=n;hexname=n}  direct
+  <object>  O:n:X:{…}   an /XObject dictionary          O:n:R:<slot>  a resource dictionary
+            O:n:?       anything else
+            O:n:F:<matrix>:<resources>:<len>:<parses> [ <rawop> … ]     a form
+              matrix: - (none) | e (empty array) | elements, `x` = not a number
+              resources: - | ? | @n | D<slot> (direct dictionary with that /XObject slot)
+  <rawop>   operator or operator:operand,operand…   operands: number | /hexname | s<sid> | ?
+  each `|` starts another Extract call on the same extractor.
+
+Reply, per call joined by `|`:  err or the deduplicated fragments `sid@x,y,size²`, then
+`;raw=<count>:<hash>;b=<xobjectBytes>;d=<depth>;st=<stack>`.  Long fragment lists are cut to
+the first and last 12 plus a hash of the whole list.  The programs of this op start with
+`0 Tz`, which makes every glyph advance exactly 0, so every origin is compared. -/
+
+open Tabula.XDoc
+
+def parseHexName (s : String) : Option Name :=
+  (unhexAux s.toList []).map fun bs => bs.map (·.toNat)
+
+def parseOperand (t : String) : Option (Operand Rat) :=
+  if t == "?" then some .other
+  else if t.startsWith "/" then (parseHexName (t.drop 1).toString).map .name
+  else if t.startsWith "s" then (t.drop 1).toString.toNat?.map .str
+  else (parseRat t).map .num
+
+def parseOpr (k : String) : Opr :=
+  match k with
+  | "q" => .q | "Q" => .Q | "cm" => .cm | "BT" => .BT | "ET" => .ET | "Tf" => .Tf | "Tc" => .Tc
+  | "Tw" => .Tw | "Tz" => .Tz | "TL" => .TL | "Tm" => .Tm | "Td" => .Td | "TD" => .TD
+  | "T*" => .Tstar | "Tj" => .Tj | "'" => .quote | "\"" => .dquote | "Do" => .Do
+  | _ => .other
+
+def parseRawOp (t : String) : Option (RawOp Rat) :=
+  match t.splitOn ":" with
+  | [k] => some ⟨parseOpr k, []⟩
+  | [k, v] => ((v.splitOn ",").mapM parseOperand).map fun xs => ⟨parseOpr k, xs⟩
+  | _ => none
+
+def parseBinding (t : String) : Option (Name × Nat) :=
+  match t.splitOn "=" with
+  | [k, v] => match parseHexName k, v.toNat? with
+    | some n, some i => some (n, i)
+    | _, _ => none
+  | _ => none
+
+def parseXSlot (s : String) : Option (Slot XDict) :=
+  if s == "-" then some .missing
+  else if s == "?" then some .junk
+  else if s.startsWith "@" then (s.drop 1).toString.toNat?.map .ref
+  else if s.startsWith "{" && s.endsWith "}" then
+    let inner := ((s.drop 1).dropEnd 1).toString
+    if inner.isEmpty then some (.direct [])
+    else ((inner.splitOn ";").mapM parseBinding).map .direct
+  else none
+
+def parseResSlot (s : String) : Option (Slot Res) :=
+  if s == "-" then some .missing
+  else if s == "?" then some .junk
+  else if s.startsWith "@" then (s.drop 1).toString.toNat?.map .ref
+  else if s.startsWith "D" then (parseXSlot (s.drop 1).toString).map fun x => .direct ⟨x⟩
+  else none
+
+def parseMatrixArr (s : String) : Option (Option (List (Option Rat))) :=
+  if s == "-" then some none
+  else if s == "e" then some (some [])
+  else ((s.splitOn ",").mapM fun t => if t == "x" then some none else (parseRat t).map some).map some
+
+/-- raw operations up to (not including) the first token `stop`; the rest after it -/
+def parseRawOps (stop : String) : List String → Option (List (RawOp Rat) × List String)
+  | [] => some ([], [])
+  | t :: ts =>
+    if t == stop then some ([], ts)
+    else do
+      let op ← parseRawOp t
+      let (rest, ts') ← parseRawOps stop ts
+      pure (op :: rest, ts')
+
+/-- objects until the token `P` -/
+def parseObjects : Nat → List String → List (Nat × Obj Rat) → Option (List (Nat × Obj Rat) × List String)
+  | 0, _, _ => none
+  | _, [], acc => some (acc.reverse, [])
+  | fuel + 1, t :: ts, acc =>
+    if t == "P" then some (acc.reverse, ts)
+    else match t.splitOn ":" with
+      | ["O", n, "?"] => do
+        let i ← n.toNat?
+        parseObjects fuel ts ((i, .other) :: acc)
+      | ["O", n, "X", d] => do
+        let i ← n.toNat?
+        match ← parseXSlot d with
+        | .direct x => parseObjects fuel ts ((i, .xdict x) :: acc)
+        | _ => none
+      | ["O", n, "R", d] => do
+        let i ← n.toNat?
+        let x ← parseXSlot d
+        parseObjects fuel ts ((i, .res ⟨x⟩) :: acc)
+      | ["O", n, "F", m, r, l, ok] => do
+        let i ← n.toNat?
+        let m ← parseMatrixArr m
+        let r ← parseResSlot r
+        let l ← l.toNat?
+        match ts with
+        | "[" :: ts1 => do
+          let (body, ts2) ← parseRawOps "]" ts1
+          parseObjects fuel ts2 ((i, .form ⟨m, r, l, if ok == "1" then some body else none⟩) :: acc)
+        | _ => none
+      | _ => none
+
+/-- the programs of a history, separated by `|` -/
+def parsePrograms : Nat → List String → Option (List (List (RawOp Rat)))
+  | 0, _ => none
+  | fuel + 1, ts => do
+    let (p, rest) ← parseRawOps "|" ts
+    if rest.isEmpty && !(ts.contains "|") then pure [p]
+    else do
+      let more ← parsePrograms fuel rest
+      pure (p :: more)
+
+def polyHash (s : String) : Nat :=
+  s.toList.foldl (fun h c => (h * 131 + c.toNat) % 1000000007) 7
+
+def fragStr (f : Frag Rat) : String :=
+  s!"{f.sid}@{dec f.sh.x},{dec f.sh.y},{dec (f.sh.fs * f.sh.fs * f.sh.tmScale2 * f.sh.ctmScale2)}"
+
+def summarise (xs : List String) : String :=
+  if xs.isEmpty then "-"
+  else if xs.length ≤ 24 then ";".intercalate xs
+  else
+    let h := polyHash (";".intercalate xs)
+    ";".intercalate (xs.take 12) ++ s!";..{xs.length}:{h}..;" ++ ";".intercalate (xs.drop (xs.length - 12))
+
+/-- one Extract call: reply and the extractor afterwards -/
+def docCall (doc : Doc Rat) (p : List (RawOp Rat)) (x : XState Rat) : XState Rat × String :=
+  let r := extractRaw (fun _ _ => (0 : Rat)) doc p x
+  let raw := r.2.1
+  let main := if r.2.2 then "err"
+    else if raw.length > 2000 then "dedup-skipped"
+    else summarise ((dedupBy fragKey raw []).map fragStr)
+  let rawS := raw.map fragStr
+  (r.1, s!"{main};raw={raw.length}:{polyHash (";".intercalate rawS)};b={r.1.acct.bytes};d={r.1.gs.xdepth};st={r.1.gs.stack.length}")
+
+def docCalls (doc : Doc Rat) : List (List (RawOp Rat)) → XState Rat → List String
+  | [], _ => []
+  | p :: rest, x =>
+    let r := docCall doc p x
+    r.2 :: docCalls doc rest r.1
+
+/-- property mode (c08.docp): every fragment as `c08.gs` prints it (`~` where the origin
+depends on a glyph advance or the size is not rational), no deduplication -/
+def docpCall (doc : Doc Rat) (p : List (RawOp Rat)) (x : XState Rat) : XState Rat × String :=
+  let r := extractRaw (fun _ _ => (0 : Rat)) doc p x
+  let main := if r.2.2 then "err" else joinOr (r.2.1.map fun f => s!"{f.sid}@{showStr f.sh}")
+  (r.1, s!"{main};b={r.1.acct.bytes};d={r.1.gs.xdepth};st={r.1.gs.stack.length}")
+
+def docpCalls (doc : Doc Rat) : List (List (RawOp Rat)) → XState Rat → List String
+  | [], _ => []
+  | p :: rest, x =>
+    let r := docpCall doc p x
+    r.2 :: docpCalls doc rest r.1
+
+/-- c08.docx / c08.docx0: the first program on a new extractor, computed the other way
+round: unfold the document into a form tree (`expandPage`, the object of
+`extract_unfolds`) and run the operator model of `Model/GState.lean` on the tree.
+`zeroAdv`: every origin is printed (programs that start with `0 Tz`). -/
+def docxReply (zeroAdv : Bool) (doc : Doc Rat) (res : Option Res) (p : List (RawOp Rat)) : String :=
+  let e := expandPage doc res 0 p ⟨0, 0, 0⟩
+  match exec (fun _ _ => (0 : Rat)) e.1 (init : State Rat) with
+  | none => "err"
+  | some r =>
+    let str := fun (sh : Show Rat) => if zeroAdv then showStr { sh with clean := true } else showStr sh
+    let main := if r.2.length > 2000 then s!"n={r.2.length}" else summarise (r.2.map str)
+    s!"{main};b={e.2.bytes};d={r.1.xdepth};st={r.1.stack.length}"
+
+def handleDocx (zeroAdv : Bool) (args : List String) : String :=
+  match args with
+  | r :: rest =>
+    let res : Option (Option Res) :=
+      if r == "R:nil" then some none
+      else if r.startsWith "R:" then (parseXSlot (r.drop 2).toString).map fun x => some ⟨x⟩
+      else none
+    match res, parseObjects (rest.length + 2) rest [] with
+    | some res, some (objs, ptoks) =>
+      match parsePrograms (ptoks.length + 2) ptoks with
+      | some (p :: _) => docxReply zeroAdv (fun n => objs.lookup n) res p
+      | _ => "bad-op"
+    | _, _ => "bad-op"
+  | [] => "bad-op"
+
+def handleDoc (propMode : Bool) (args : List String) : String :=
+  match args with
+  | r :: rest =>
+    let res : Option (Option Res) :=
+      if r == "R:nil" then some none
+      else if r.startsWith "R:" then (parseXSlot (r.drop 2).toString).map fun x => some ⟨x⟩
+      else none
+    match res, parseObjects (rest.length + 2) rest [] with
+    | some res, some (objs, ptoks) =>
+      match parsePrograms (ptoks.length + 2) ptoks with
+      | some progs =>
+        let doc : Doc Rat := fun n => objs.lookup n
+        "|".intercalate (if propMode then docpCalls doc progs (newExtractor res)
+          else docCalls doc progs (newExtractor res))
+      | none => "bad-op"
+    | _, _ => "bad-op"
+  | [] => "bad-op"
+
 def handle (op : String) (args : List String) : String :=
   match op with
+  | "c08.doc" => handleDoc false args
+  | "c08.docp" => handleDoc true args
+  | "c08.docx" => handleDocx false args
+  | "c08.docx0" => handleDocx true args
   | "c08.gs" => match parseProgram args with
     | some ops => (match run (fun _ _ => (0 : Rat)) ops init with
       | some shows => joinOr (shows.map showStr)
